@@ -289,8 +289,18 @@ def ddmin(case, pred, keep_prefix=1, budget=200):
 
 
 def load_known():
-    p = os.path.join(ROOT, "known_findings.json")
-    return json.load(open(p)) if os.path.exists(p) else {"known": [], "fixed": []}
+    """known_findings.json plus per-property fragments in known_findings.d/ (never written at run time)."""
+    res = {"known": [], "fixed": []}
+    paths = [os.path.join(ROOT, "known_findings.json")]
+    d = os.path.join(ROOT, "known_findings.d")
+    if os.path.isdir(d):
+        paths += [os.path.join(d, f) for f in sorted(os.listdir(d)) if f.endswith(".json")]
+    for p in paths:
+        if os.path.exists(p):
+            j = json.load(open(p))
+            res["known"] += j.get("known", [])
+            res["fixed"] += j.get("fixed", [])
+    return res
 
 
 def write_replay(pid, seed, payload):
